@@ -1514,6 +1514,7 @@ func runC09(w *World) *Result {
 	c09Prefix(w, r)
 	PrefixDigestRule(w, r, "R-C09-prefix", nil)
 	c09PrefixApplied(w, r, "R-C09-prefix")
+	PrefixBuilderRule(w, r, "R-C09-prefix")
 	c07Public(w, cf, r, "R-C09-public")
 	c07Predicate(w, r, "R-C09-public")
 	r.Rule("R-C09-once", "a file reached along several import paths is added to the program once (set of included files shared by reference with the import parsers, consulted and updated under the file's identity)", 1)
